@@ -278,13 +278,13 @@ class C13(PropCheck):
         cases += c13_svg.regression_par_inherited()
         cases += real.regression_background_round_zero_size()
         cases += c13_r4.regression_image_resolution()
+        cases += c13_r4.regression_orientation_not_inherited()
         return cases
 
     def finding_replays(self):
         docs.quiet()
         return {'grey16-embedded-as-rgb8': c13_embed.finding_grey16,
-                'background-no-repeat-axis-wraps': c13_docs.finding_no_repeat_axis_wraps,
-                'image-orientation-not-inherited': c13_r4.finding_orientation_not_inherited}
+                'background-no-repeat-axis-wraps': c13_docs.finding_no_repeat_axis_wraps}
 
     def replay(self, data):
         docs.quiet()
@@ -319,6 +319,11 @@ class C13(PropCheck):
         if meta.get('fn') == 'canvas-document':
             line, out = c13_r4.run_canvas_document(c13_docs.revive(meta['canvas_doc']))
             return c13_oracle.judge(line, out) if line else f'canvas document: {out}'
+        if meta.get('fn') == 'docimg-orientation-inherited':
+            for line, out, m, _, _ in c13_r4.regression_orientation_not_inherited():
+                if m.get('html') == meta['html']:
+                    return c13_oracle.judge(line, out)
+            return None
         if meta.get('fn') == 'docimg-resolution':
             for line, out, m, _, _ in c13_r4.regression_image_resolution():
                 if m.get('html') == meta['html']:
@@ -376,7 +381,8 @@ MANIFEST = {
             'lossy options, the dpi thumbnail path, SVG painting below the root transform, gradients, EXIF-driven '
             'from-image orientation, RasterImage ratio = inf. Document level uses dyadic lengths and power-of-two '
             'image sides. Known findings (partial theorems + witnesses): grey16-embedded-as-rgb8, '
-            'background-no-repeat-axis-wraps, image-orientation-not-inherited. Repaired and kept as regression cases + theorems (section '
+            'background-no-repeat-axis-wraps. Repaired and kept as regression cases + theorems (section '
             '`regressions`): abs-replaced-ratio-only-width, unwritable-mode-crash, svg-preserveaspectratio-inherited, '
-            'image-orientation-rotates-ccw, background-round-zero-size, image-resolution-zero-division (C07).',
+            'image-orientation-rotates-ccw, background-round-zero-size, image-orientation-not-inherited, '
+            'image-resolution-zero-division (C07).',
 }
